@@ -1,5 +1,5 @@
 # Table consumed by gen_manifest.py (exec'd).  One chk(...) per claimed property.
-HOOK_COMMITS = ["274ee918", "1925d4ab", "3680c81b"]
+HOOK_COMMITS = ["274ee918", "1925d4ab", "3680c81b", "e2c6273e"]
 
 chk("C09", "algebraic-law monitor on the real issuance functions (additivity, totals) over an exhaustive boundary grid + seeded random triples",
     "Runs the real CalcUnbindOng/CalcGovernanceUnbindOng on every triple of a ~70-point boundary grid per network id (interval edges, both deadlines ±2, 0, 2^32-1) and on seeded random triples, asserting F(s,e)=F(s,m)+F(m,e), F(s,s)=0, and holder+governance totals = ONG supply, also through random piecewise settlements. Exploration: the grid is exhaustive over the listed boundaries, the rest is sampled.",
@@ -14,11 +14,11 @@ chk("C39", "mutation monitor on valid next blocks (bytes -> decode -> AddBlock /
     "blocks reach the ledger as bytes; VBFT header signature rules are C32's subject")
 
 chk("C40", "cross-query consistency monitor over committed block bytes, across clean and crash-style restarts, concurrent readers under the race detector (thorough)",
-    "Every query family (hash by height, block by height/hash, header by hash/height, raw header, transaction by hash with height, containment) is compared with the bytes of the block that was committed, for all heights of short chains and for window + random + header-index-cache-edge heights of a >2000-block chain, live, after Close+reopen and after reopening a copy taken while running; unknown hashes/heights must give not-found.",
+    "Every query family (hash by height, block by height/hash, header by hash/height, raw header, transaction by hash with height, containment) is compared with the bytes of the block that was committed, for all heights of short chains and for window + random + header-index-cache-edge heights of a >2000-block chain, live, after Close+reopen, after reopening a copy taken while running and after reopening a snapshot taken at each of the 6 crash points of a block commit (restart height must be h-1 or h); on a quarter of the heights header sync first announces a COMPETING valid header of that height (the rival must never be reported as a block); unknown hashes/heights must give not-found.",
     "solo chains built like consensus/solo.makeBlock; pruning disabled")
 
 chk("C42", "state-fingerprint and on-disk-dump invariance monitor around every read-only entry point + differential against a reference ledger that never pre-executed",
-    "Hundreds of seeded pre-execution requests that would write (token transfers with fee, storage put/delete, approve, deploy, contract destroy, notify, EVM transfer and create+SSTORE+LOG) go through PreExecuteContract, PreExecuteContractBatch(atomic t/f), PreExecuteEIP155, PreExecuteEip155Tx and TraceEip155Tx; API-level fingerprint after requests, byte dump of every store directory and a probe block's execution per batch must be unchanged; the ledger then commits further blocks in lock-step with a reference ledger; a concurrent variant races pre-executions with commits (race detector in thorough).",
+    "Hundreds of seeded pre-execution requests that would write (token transfers with fee, storage put/delete, approve, deploy, contract destroy, notify, EVM transfer and create+SSTORE+LOG) go through PreExecuteContract, PreExecuteContractBatch(atomic t/f), PreExecuteEIP155, PreExecuteEip155Tx and TraceEip155Tx; API-level fingerprint after requests, byte dump of every store directory and a probe block's execution per batch must be unchanged; on every second block requests are also served between ExecuteBlock and SubmitBlock (the split consensus API); the ledger then commits further blocks in lock-step with a reference ledger; a concurrent variant races pre-executions with commits (race detector in thorough).",
     "WASM pre-execution not driven (JIT unavailable in this sandbox)")
 
 chk("C02", "3-way differential between real ledgers: validating consensus node vs byte-decoding syncing node vs separate-process restarted node, plus repeated execution",
@@ -63,7 +63,7 @@ chk("C04", "model-based state machine on the real CacheDB -> OverlayDB -> LevelD
 
 chk("C44", "layer-model monitor for migrate/clean at CacheDB level + ledger-level VM scenarios",
     "Contract storage spread over persistent store, block overlay and tx cache (all 17 placement combinations, tombstones, byte-neighbour contract addresses, addresses ending 0x00/0xff) is migrated / cleaned (also chained, in the same tx, after a tx commit, in the next block) and compared with a model at every level and phase: every old entry readable under the new address, none live under the old one, neighbours untouched, destroyed marker per tracking height.",
-    "VM-level oracle (Contract.Migrate/Destroy scripts on a ledger) see runVMLevel; migrate-to-self / to-destroyed refused by ContractMigrate are out of domain")
+    "VM level: 60 / 1500 ledger scenarios (deploy, fill over blocks, kill by Destroy / Migrate / Destroy+Put / Migrate+Put-through-old-context, then 2 rounds of attacks on the dead address: call, Deploy tx, Contract.Create, migrate a third contract to it). 2 known findings (Put after Destroy/Migrate in the same invocation succeeds); migrate-to-self refused by ContractMigrate is out of domain")
 
 chk("C06", "token-ledger reference model + conservation / authorization invariants on committed state after real invoke transactions",
     "Every ONT/ONG transfer, transferV2, approve, approveV2, transferFrom, transferFromV2 call is a signed invoke tx in a real block (solo, polaris and main network ids); after every block: sum over all balance keys per token unchanged and equal to total supply, no negative item, success only with the debited account's witness or a sufficient decremented allowance, blocks where no call took effect leave the whole dump identical, balances/allowances equal the model. 10.7k / 322k calls.",
@@ -157,9 +157,9 @@ chk("C33", "forged-header monitor on the header-sync native contract through rea
     "syncGenesisHeader (operator-signed) then syncBlockHeader with 18 shapes of forged side-chain headers per n in {4,7,10}; acceptance is read from committed state; accepted => 3*D >= 2*n for D = distinct stored peers with a verifying signature (own count). 1500 / 40000 headers.",
     "")
 
-chk("C34", "cluster run of real vbft.Server processes behind a fault-injecting hub + offline agreement checker over recorded seal histories",
-    "N=4,C=1 (and N=7,C=2 in thorough) real nodes (NewVbftServer+Start, real tx pool and ledger, one OS process each) exchange signed consensus payloads only through the hub, which after a warm-up applies a seeded schedule: delays/reordering, loss, duplication, intermittent partitions, and <=C Byzantine peers run as equivocating twins (two processes with the same key shown to different audiences) or as a withholding peer; every honest node's (height, hash) history is read through its ledger; verdict: agreement at every height.",
-    "wall-clock timers: schedules are not bit-reproducible; safety only, tens of schedules; forged-content messages are C31's subject")
+chk("C34", "in-process single-height games over the real VBFT handlers (seeded scheduler = asynchronous network + <=C faulty peers) and cluster runs of real vbft.Server processes behind a fault-injecting hub; agreement oracle over seal decisions / ledger histories",
+    "(1) 6000 / 200000 games, N in {4,7}: every honest node is a real vbft.Server without goroutines, network and ledger (hook VerifSimNode) whose real onConsensusMsg, processMsgEvent, processTimerEvent, endorseBlock, commitBlock, makeSealed code is pumped one event at a time; the scheduler chooses delivery order, duplicates, which ARMED timer expires, and what the faulty peers say (several different signed proposals, endorse/commit about any known block or empty block to any subset; strategies random / split-brain camps / quiet); verdict: all SealBlock decisions of honest nodes of a game name one block; a divergence is classified by cause from the sealing nodes' own block pools. (2) N=4,C=1 (and N=7,C=2 in thorough) real nodes (NewVbftServer+Start, real tx pool and ledger, one OS process each) exchange signed consensus payloads only through the hub, which after a warm-up applies a seeded schedule: delays/reordering, loss, duplication, intermittent partitions, and <=C Byzantine peers run as equivocating twins (two processes with the same key shown to different audiences) or as a withholding peer; every honest node's (height, hash) history is read through its ledger; verdict: agreement at every height.",
+    "3 known findings (protocol-level causes of divergence); games are single-height, proposals carry no transactions; cluster half: wall-clock timers, schedules not bit-reproducible, tens of schedules; forged-content messages are C31's subject")
 
 chk("C41", "role/delegation reference model vs pre-executed and in-block verifyToken, both directions",
     "Real registered ONT IDs, two contracts (script-addressed and APPCALL proxy), ~30 steps per history of admin init/transfer, role assignment, delegation, withdrawal with controlled block times; after every step verifyToken for every (contract, caller, fn) that is or recently was positive plus sampled negatives and 5 key-control variants, incl. time==expiry and expiry+1, must equal the model. 99k / 997k evaluations.",
